@@ -123,7 +123,7 @@ Proof.
             orel eq ((r <- match snd a1 with
                            | Normal => v <- (o <- need (lookup "value" (e_vars (fst a1)));; need o);; ret (fst a1, Ret v)
                            | _ => ret a1
-                           end;; ret match snd r with Ret v => v | _ => VNone end) w') (ret a2 w')).
+                           end;; match snd r with Ret v => ret v | Exc e => raise e | _ => ret VNone end) w') (ret a2 w')).
   { intros [en sg] v w' [HS HR]. cbn [fst snd] in HS, HR |- *. subst sg. norm. rewrite HR. norm.
     apply orel_ret. reflexivity. }
   (* the loop, entered with "value" bound to the model's loop state *)
@@ -140,7 +140,7 @@ Proof.
             exit_rel inv (fun _ _ => False) a1 a2 ->
             orel (fun (r1 : env * sig) (v : val) =>
                     snd r1 = Normal /\ lookup "value" (e_vars (fst r1)) = Some (Some v))
-              (match snd (fst a1) with Ret _ => ret (fst a1) | _ => ret (fst (fst a1), Normal) end w')
+              (match snd (fst a1) with Normal | Brk => ret (fst (fst a1), Normal) | _ => ret (fst a1) end w')
               (ret (fst a2) w')).
   { intros [[en' sg] c1] [t c2] w2 [Hc HR]. cbn [fst snd] in Hc, HR |- *. subst c2.
     destruct c1; [contradiction|]. destruct HR as (HS & HF' & HR). cbn [fst snd] in HS, HF', HR. subst sg. norm.
@@ -163,14 +163,14 @@ Proof.
                match snd r1 with
                | Ret v' => v' = v
                | Normal => lookup "best" (e_vars (fst r1)) = Some (Some v)
-               | Brk => False
+               | Brk | Exc _ => False
                end).
   assert (Hend : forall (a1 : env * sig) (a2 : val) w', R a1 a2 ->
             orel eq ((r <- match snd a1 with
                            | Normal => v <- (o <- need (lookup "best" (e_vars (fst a1)));; need o);; ret (fst a1, Ret v)
                            | _ => ret a1
-                           end;; ret match snd r with Ret v => v | _ => VNone end) w') (ret a2 w')).
-  { intros [en sg] v w' HR. unfold R in HR. cbn [fst snd] in HR |- *. destruct sg; [|contradiction|]; norm.
+                           end;; match snd r with Ret v => ret v | Exc e => raise e | _ => ret VNone end) w') (ret a2 w')).
+  { intros [en sg] v w' HR. unfold R in HR. cbn [fst snd] in HR |- *. destruct sg; [|contradiction| |contradiction]; norm.
     - rewrite HR. norm. apply orel_ret. reflexivity.
     - apply orel_ret. exact HR. }
   pose (inv1 := fun (st1 : env * sig) (best : val) =>
@@ -192,7 +192,7 @@ Proof.
         apply orel_ret, step_rel_cont; repeat split; assumption. }
   assert (Hexit1 : forall (a1 : env * sig * bool) (a2 : val * bool) w',
             exit_rel inv1 (fun _ _ => False) a1 a2 ->
-            orel R (match snd (fst a1) with Ret _ => ret (fst a1) | _ => ret (fst (fst a1), Normal) end w')
+            orel R (match snd (fst a1) with Normal | Brk => ret (fst (fst a1), Normal) | _ => ret (fst a1) end w')
                    (ret (fst a2) w')).
   { intros [[en' sg] c1] [t c2] w2 [Hc HR]. cbn [fst snd] in Hc, HR |- *. subst c2.
     destruct c1; [contradiction|]. destruct HR as (HS & HI & HB). cbn [fst snd] in HS, HI, HB. subst sg. norm.
@@ -223,7 +223,7 @@ Proof.
         apply orel_ret, step_rel_cont; repeat split; assumption. }
   assert (Hexit2 : forall k (a1 : env * sig * bool) (a2 : val * val * bool) w',
             exit_rel (inv2 k) (fun _ _ => False) a1 a2 ->
-            orel R (match snd (fst a1) with Ret _ => ret (fst a1) | _ => ret (fst (fst a1), Normal) end w')
+            orel R (match snd (fst a1) with Normal | Brk => ret (fst (fst a1), Normal) | _ => ret (fst a1) end w')
                    (ret (fst (fst a2)) w')).
   { intros k [[en' sg] c1] [[t tk] c2] w2 [Hc HR]. cbn [fst snd] in Hc, HR |- *. subst c2.
     destruct c1; [contradiction|]. destruct HR as (HS & HK & HI & HB & HBK). cbn [fst snd] in HS, HB. subst sg. norm.
